@@ -386,7 +386,8 @@ pub fn run_history(rep: &mut Rep, h: &HistSpec, unchecked: bool, budget: usize, 
         }
         _ => BitVectorMut::default(),
     };
-    let full_every = (h.n_ops / 6).max(1);
+    // interpreters: one full observation at the end (plus the one on the immutable copy)
+    let full_every = if crate::tiny() { h.n_ops.max(1) * 2 } else { (h.n_ops / 6).max(1) };
     for step in 0..h.n_ops {
         let op = apply_op(rep, &mut bvm, &mut m, &mut rng, h.profile);
         if rep.trace {
@@ -395,7 +396,7 @@ pub fn run_history(rep: &mut Rep, h: &HistSpec, unchecked: bool, budget: usize, 
         if h.profile == 0 || step % 4 == 0 {
             observe_light(rep, &bvm, &m, &mut rng);
         }
-        if (h.profile == 0 && m.len() <= 300 && step % 3 == 0) || step % full_every == full_every - 1 {
+        if (h.profile == 0 && m.len() <= 300 && step % 3 == 0 && !crate::tiny()) || step % full_every == full_every - 1 {
             observe_full_opt(rep, &bvm, &m, &mut rng, unchecked, budget, strict_end);
         }
     }
@@ -460,7 +461,7 @@ pub fn run_history(rep: &mut Rep, h: &HistSpec, unchecked: bool, budget: usize, 
 pub fn hist_specs(cfg: &Cfg) -> Vec<HistSpec> {
     let mut rng = Rng::derive(cfg.seed, "c08_histories", 0);
     let (count, max_ops) = match (cfg.scale, cfg.tier) {
-        (Scale::Tiny, Tier::Quick) => (16, 30),
+        (Scale::Tiny, Tier::Quick) => (8, 16),
         (Scale::Tiny, Tier::Thorough) => (64, 60),
         (Scale::Mid, Tier::Quick) => (160, 400),
         (Scale::Mid, Tier::Thorough) => (600, 1200),
@@ -481,7 +482,7 @@ pub fn hist_specs(cfg: &Cfg) -> Vec<HistSpec> {
 
 pub fn hist_cases(cfg: &Cfg, unchecked: bool, strict_end: bool) -> Vec<Case> {
     let budget = match cfg.scale {
-        Scale::Tiny => 60,
+        Scale::Tiny => 24,
         Scale::Mid => 600,
         Scale::Full => 2500,
     };
